@@ -80,18 +80,19 @@ def nontrivial(payload, md):
 
 
 LEVEL_TEXT = ('Coq theorems over ALL schedules (induction on the step relation of an explicit-schedule machine with '
-              'spurious wake-ups, any number of producers/callbacks/getters) for the transcribed ExecutorThread/'
-              'ConsumerThread/Thread/FutureImpl programs: every shared-variable and queue access holds its protecting '
-              'mutex (c17_lockset), exact lock ownership and popped-callback discipline at every program point '
-              '(c17_lock_discipline), no unlock by a non-owner; for the FutureImpl raw-pointer pattern of DrainCallbacks '
-              '(c17_future_raw): no hazard (use-after-free, destroy-while-busy, ...) is reachable and a returned Get '
-              'returned the value set, after Set; witness schedules for the three pre-fix defects. '
-              'PARTIAL: exactly-once/order/empty-at-shutdown (c17_exec_once), absence of lost wake-ups/deadlock and '
-              'use-after-free-freedom of FutureImpl with several reference-holding copies are NOT proved for all schedules; they are checked per schedule '
-              '(every single preemption, pairs of preemptions, spurious wake-ups, random) by trace equality between the '
-              'extracted machine and the real classes under a cooperative scheduler, which reports deadlock, '
-              'use-after-free, callback counts, executing thread and order.  ThreadPool, PeriodicThread, '
-              'SelectServer::Execute and FilePreferenceSaverThread::Synchronize are not modelled.')
+              'spurious wake-ups) for the transcribed ExecutorThread/ConsumerThread/Thread/FutureImpl programs. For the '
+              'ExecutorThread scenario with any number of producers and callbacks: no hazard is reachable, callbacks '
+              'run at most once, in exactly the order queued (hence per-producer order), only by the consumer or by the '
+              'owner in Stop()/destructor and never by the submitter, and when the owner has finished every thread has '
+              'finished, the queue is empty and every submitted callback has run exactly once (c17_exec_once); the wake-up '
+              'invariant and deadlock freedom: every reachable state in which the owner has not finished has a thread that '
+              'can step (c17_wakeup_invariant, c17_no_lost_wakeup); locksets and lock discipline for all programs '
+              '(c17_lockset, c17_lock_discipline, c17_no_bad_unlock); FutureImpl in the raw-pointer pattern of '
+              'DrainCallbacks: no use-after-free or other hazard, Get returns the value set after Set (c17_future_raw). '
+              'NOT proved for all schedules, only checked per enumerated schedule by trace equality with the real classes '
+              'under a cooperative scheduler: FutureImpl with several reference-holding copies (ref count = number of '
+              'holders). NOT modelled at all: ThreadPool, PeriodicThread, SelectServer::Execute/DrainAndExecute, '
+              'FilePreferenceSaverThread::Synchronize, ExecutorThread::DrainCallbacks itself, callbacks that call Execute.')
 LEVEL_NOTE = ('Trusted: Coq kernel, extraction (ExtrOcamlBasic), OCaml/C++ glue, the hand transcription of the C++ '
               'methods into instruction lists (validated by per-schedule trace equality, not proved), the pthread '
               'emulation in the harness (ld --wrap; one thread runs at a time, so real memory-model races are not '
